@@ -1345,6 +1345,23 @@ theorem composed_result_buffer_fits (env : Nat → Shape) (p : Prog) {o : SInfo}
     (hok : p.ok env) (ho : p.static = some o) (ht : p.shape env = some t) (hc : o.boundedSize = some cap) : prod t ≤ cap :=
   result_buffer_fits (static_sound env p hok ho ht) hc
 
+/-- a depth-3 instance over the third group: `outer(compress([1,0,1], max_pool2d(cl[4,5], (2,2), (1,1)), axis 0), fdf[2])`
+    on the run-time shapes (3,4) and (2): pooled (2,3), compressed (1,3) — NumPy needs the third entry of the condition to be
+    0 there, so the condition is [1,0,0] —, outer (1,3,2); only the rank 3 is inferred (a pooled view reports no bounded size) -/
+def exProg3 : Prog :=
+  .outer (.compress (.rt 3) [1, 0, 0] (.cts 0) (some 0)
+            (.pool2d (.ct [2, 2]) (.ct [1, 1]) [2, 2] [1, 1] false (.leaf ⟨.clipped [4, 5], .atMost 20⟩ 0)))
+         (.leaf ⟨.fixedDim 1, .known 2⟩ 1)
+def exEnv3 : Nat → Shape := fun n => if n = 0 then [3, 4] else [2]
+example : exProg3.static = some ⟨.fixedDim 3, .any⟩ ∧ exProg3.shape exEnv3 = some [1, 3, 2] := by decide
+example : (Prog.tril (.tile (.bnd 3) [2, 2, 2] (.leaf ⟨.fixedDim 1, .atMost 4⟩ 0))).static = some ⟨.boundedDim 3, .any⟩ ∧
+    (Prog.tril (.tile (.bnd 3) [2, 2, 2] (.leaf ⟨.fixedDim 1, .atMost 4⟩ 0))).shape (fun _ => [3]) = some [2, 2, 6] := by decide
+/-- `composed_result_buffer_fits` is not vacuous on the third group: sliding_window over a tiled clipped leaf -/
+example :
+    let p := Prog.slidingWindow (.num (.ct 2)) (.num 2) (.cts 1) (some 1) (.resize (.ct [3, 4]) [3, 4] (.leaf ⟨.const [2, 2], .known 4⟩ 0))
+    p.static = some ⟨.const [3, 3, 2], .known 18⟩ ∧ p.shape (fun _ => [2, 2]) = some [3, 3, 2] ∧
+    (⟨.const [3, 3, 2], .known 18⟩ : SInfo).boundedSize = some 18 := by decide
+
 /-! ## the eval resolver (array/eval.hpp:706-879): the container chosen from the static knowledge has room -/
 
 theorem shapeCand_sound {i : SInfo} {s : Shape} (h : i.γ s) {sc : ShapeC} {sh : ShapeK} (hc : shapeCand i sc = some sh) : sh.γ s := by
